@@ -134,7 +134,7 @@ func Run(run *kernel.Run) {
 	w.fillTail("fixture", w.dst)
 	run.Hist("fixture %s table=%x", w.kind, w.tbl)
 
-	for w.step < maxSteps && (w.t.Choose("ops", "more", 24) != 0 || w.step == 0) {
+	for w.step < maxSteps*kernel.Depth && (w.t.Choose("ops", "more", 24*kernel.Depth) != 0 || w.step == 0) {
 		w.step++
 		run.Res.Ops++
 		switch c := w.t.Choose("ops", "kind", 11); {
